@@ -36,6 +36,9 @@ type c03X struct {
 
 const c03Lead = "\x1c"
 
+// c03EscLed are the generated sequences that start with ESC instead of the lead byte.
+var c03EscLed = map[string]bool{"\x1b[9~": true, "\x1b[7;3~": true, "\x1bO9": true, "\x1b[9;9x": true}
+
 func genC03(g *Gen, tier string, idx int) *wire.Scenario {
 	sc := &wire.Scenario{Prop: "C03", Family: "dispatch"}
 	x := c03X{Keymap: Pick(g, []string{"emacs", "emacs", "vi-insert", "vi-command", "vi-command"})}
@@ -43,7 +46,7 @@ func genC03(g *Gen, tier string, idx int) *wire.Scenario {
 	// violation there is new and named apart), and a third of these type the input while the
 	// vi visual keymap is active: sequences it does not bind fall through to the main keymap.
 	x.Core = idx%2 == 0
-	if x.Core && g.P(35) {
+	if x.Core && g.P(35) && x.Keymap != "vi-command" {
 		x.Keymap, x.Local = "vi-command", "vi-visual"
 	}
 	mode := "emacs"
@@ -87,6 +90,15 @@ func genC03(g *Gen, tier string, idx int) *wire.Scenario {
 		seen[s] = true
 		seqs = append(seqs, s)
 	}
+	if x.Core && g.P(35) && x.Keymap != "vi-command" {
+		// sequences that start with ESC, as function keys do (none of these is in the default tables):
+		// cut after two or more of their bytes they are still a pending prefix, in every keymap
+		for _, s := range []string{"\x1b[9~", "\x1b[7;3~", "\x1bO9", "\x1b[9;9x"} {
+			if g.P(50) && len(seqs) < 9 {
+				seqs = append(seqs, s)
+			}
+		}
+	}
 	for i, s := range seqs {
 		b := c03Bind{Seq: wire.Bytes(s), Probe: i % 10}
 		if strings.Contains(s, "\x1b") && g.P(40) {
@@ -108,6 +120,7 @@ func genC03(g *Gen, tier string, idx int) *wire.Scenario {
 	}
 	// input: bound sequences, their prefixes, extensions and noise
 	var in strings.Builder
+	var parts []string // the pieces the input is made of (prefix-free batch): one token each under the cutting schedule
 	neutral := []string{"b", ";"}
 	if x.Keymap != "vi-command" {
 		neutral = append(neutral, "a")
@@ -117,7 +130,9 @@ func genC03(g *Gen, tier string, idx int) *wire.Scenario {
 			// whole bound sequences and neutral keys only: the plainest claim of the statement
 			switch {
 			case g.P(65):
-				in.WriteString(Pick(g, seqs))
+				part := Pick(g, seqs)
+				in.WriteString(part)
+				parts = append(parts, part)
 			case g.P(40) && x.Keymap == "emacs":
 				// a bound sequence broken off before its last key, by a neutral key (in the vi keymaps
 				// the pinned tree loses commands typed after it, or takes an ESC of the next sequence
@@ -126,11 +141,15 @@ func genC03(g *Gen, tier string, idx int) *wire.Scenario {
 				if strings.Contains(s, "\x1b") && x.Keymap != "emacs" {
 					// a sequence broken off after its ESC leaves vi insert mode: another scenario
 					in.WriteString("b")
+					parts = append(parts, "b")
 					continue
 				}
-				in.WriteString(s[:g.Range(1, len(s)-1)] + "b")
+				part := s[:g.Range(1, len(s)-1)] + "b"
+				in.WriteString(part)
+				parts = append(parts, part)
 			default:
 				in.WriteString("b")
+				parts = append(parts, "b")
 			}
 			continue
 		}
@@ -158,8 +177,14 @@ func genC03(g *Gen, tier string, idx int) *wire.Scenario {
 		sc.Script = append(sc.Script, tok("v", "vi-visual-mode"))
 	}
 	x.Enter = len(sc.Script)
-	for _, b := range []byte(x.Input) {
-		sc.Script = append(sc.Script, tok(string([]byte{b}), "key"))
+	for i, bs := 0, []byte(x.Input); i < len(bs); i++ {
+		if bs[i] == 0x1b && x.Keymap != "emacs" && i+1 < len(bs) {
+			// in the vi keymaps an ESC that ends a read is the escape key: it stays with the byte that follows it
+			sc.Script = append(sc.Script, tok(string(bs[i:i+2]), "key"))
+			i++
+			continue
+		}
+		sc.Script = append(sc.Script, tok(string(bs[i:i+1]), "key"))
 	}
 	for _, b := range x.Table {
 		bs := wire.BindSpec{Keymap: x.Keymap, Seq: b.Seq, Meta: b.Meta}
@@ -183,7 +208,15 @@ func genC03(g *Gen, tier string, idx int) *wire.Scenario {
 		sc.Plan = wire.Plan{Policy: "canonical", Class: "S0"}
 	default:
 		sc.Script = append(sc.Script[:x.Enter], tok(string(x.Input), "keys"))
-		sc.Plan = wire.Plan{Policy: "seeded", Class: "S1", Seed: g.Seed()}
+		if x.Core && len(parts) > 0 && strings.Join(parts, "") == string(x.Input) {
+			// one token per piece: the schedule then cuts inside each sequence (never directly after an ESC
+			// in the vi keymaps), so that every proper prefix of two or more bytes is a read boundary somewhere
+			sc.Script = sc.Script[:x.Enter]
+			for _, p := range parts {
+				sc.Script = append(sc.Script, tok(p, "keys"))
+			}
+		}
+		sc.Plan = wire.Plan{Policy: "seeded", Class: "S1", Seed: g.Seed(), ViRule: x.Keymap != "emacs"}
 	}
 	return sc
 }
@@ -348,7 +381,7 @@ func execC03(x *Ctx, sc *wire.Scenario) *wire.Result {
 	// (a shrunk payload that no longer matches the environment is not a scenario of this family)
 	nOwn := 0
 	for _, bs := range sc.Env.Binds {
-		if !strings.HasPrefix(string(bs.Seq), c03Lead) || bs.Keymap != xx.Keymap {
+		if !(strings.HasPrefix(string(bs.Seq), c03Lead) || c03EscLed[string(bs.Seq)]) || bs.Keymap != xx.Keymap {
 			continue
 		}
 		nOwn++
@@ -379,6 +412,12 @@ func execC03(x *Ctx, sc *wire.Scenario) *wire.Result {
 	}
 	// keymap must still be the one under test at the end (a default command may have switched it)
 	if out.FinalSnap == nil || out.FinalSnap.Main != xx.Keymap || out.FinalSnap.Local != xx.Local {
+		if xx.Core && xx.Local == "" && out.FinalSnap != nil {
+			// whole bound sequences and a neutral key only: nothing typed here switches the keymap
+			km := xx.Keymap
+			return violation(res, "MISMATCH", "C03.dispatch-matches-reference", "prefix-free:dispatch:keymap-switched:"+km,
+				fmt.Sprintf("keymap %s, typed %q (whole bound sequences of the table and the neutral key b only): the keymap is %s/%s afterwards, a command bound to none of these sequences ran", xx.Keymap, string(xx.Input), out.FinalSnap.Main, out.FinalSnap.Local))
+		}
 		res.Counters["skipped:keymap_changed"]++
 		return res
 	}
